@@ -142,7 +142,7 @@ theorem setBlockFlag_inv (s : State) (k : Key) (r0 : Rec) (fl : Nat) (h : IdxInv
     (hr : AL.get s.index k = some r0) :
     IdxInv (setBlockFlag s k r0 fl) ∧ (setBlockFlag s k r0 fl).isOpen = s.isOpen := by
   unfold setBlockFlag
-  have hix : ∀ k' r p, AL.get (AL.set s.index k { r0 with trusted := true }) k' = some r → r.ipos = some p →
+  have hix : ∀ k' r p, AL.get (AL.set s.index k { r0 with trusted := r0.trusted || fl == BLOCK_TRUSTED }) k' = some r → r.ipos = some p →
       p + 136 ≤ s.fs.idx.length ∧ p % 136 = 0 := by
     intro k' r p
     simp only [AL.get_set]
@@ -181,7 +181,7 @@ theorem blockAdd_inv (env : Env) (s : State) (hash : Bytes) (ht tx : Nat) (tr : 
   simp only
   split
   · -- new block
-    have h1 : IdxInv { s with index := AL.set s.index (keyOf hash) ({ ipos := none, trusted := tr, olen := raw.length } : Rec) } := by
+    have h1 : IdxInv { s with index := AL.set s.index (keyOf hash) ({ ipos := none, trusted := tr, olen := raw.length, seq := s.nextSeq } : Rec) } := by
       refine ⟨h.len_mod, h.pos, ?_, h.queue⟩
       intro k r p
       simp only [AL.get_set]
@@ -192,8 +192,8 @@ theorem blockAdd_inv (env : Env) (s : State) (hash : Bytes) (ht tx : Nat) (tr : 
         simp at e2
       · exact h.ipos k r p
     obtain ⟨c1, c2, c3, c4, c5, c6⟩ := addToCache_inv _ (keyOf hash) raw h1
-    generalize hs1 : addToCache { s with index := AL.set s.index (keyOf hash) ({ ipos := none, trusted := tr, olen := raw.length } : Rec) } (keyOf hash) raw = s1 at *
-    have h2 : IdxInv { s1 with datToWrite := s1.datToWrite + raw.length, queue := s1.queue ++ [({ data := raw, idx := keyOf hash, height := ht, txcount := tx % 2 ^ 32 } : B2W)] } := by
+    generalize hs1 : addToCache { s with index := AL.set s.index (keyOf hash) ({ ipos := none, trusted := tr, olen := raw.length, seq := s.nextSeq } : Rec) } (keyOf hash) raw = s1 at *
+    have h2 : IdxInv { s1 with datToWrite := s1.datToWrite + raw.length, nextSeq := s1.nextSeq + 1, queue := s1.queue ++ [({ data := raw, idx := keyOf hash, height := ht, txcount := tx % 2 ^ 32, seq := s1.nextSeq } : B2W)] } := by
       refine ⟨c1.len_mod, c1.pos, c1.ipos, ?_⟩
       intro b hb
       simp only [List.mem_append, List.mem_singleton] at hb
